@@ -1076,7 +1076,7 @@ def vacuous_head(head):
 # --------------------------------------------------------------------------
 # contracts whose text needs the signature / interpreter shims: never pulled into other units by //@stubrest
 STUBREST_SKIP = {'Transaction::_verify', 'TxIn::get_finalised_script_impl'}
-STUBREST_SKIP_FILES = {'template.vc', 'interp_sig.vc', 'asm.vc'}
+STUBREST_SKIP_FILES = {'template.vc', 'interp_sig.vc', 'asm.vc', 'accessors.vc'}
 
 
 def expand(unit, db=None, outdir=None, variant=None):
@@ -1119,6 +1119,27 @@ def expand(unit, db=None, outdir=None, variant=None):
             elif s.startswith('//@constbytes '):
                 m = re.match(r'//@constbytes\s+(\w+)\s+@\s+(\S+)\s*$', s)
                 lines.append(const_bytes(m.group(1), m.group(2), info))
+            elif s.startswith('//@const '):
+                # a scalar constant of the source, copied with its defining expression (never hand-written in a unit)
+                m = re.match(r'//@const\s+(\w+)\s+@\s+(\S+)\s*$', s)
+                cname, rel = m.group(1), m.group(2)
+                csrc = strip_comments(open(os.path.join(REPO, rel)).read())
+                mm = re.search(r'(?:pub(?:\([a-z]+\))?\s+)?const\s+' + re.escape(cname) + r'\s*:\s*([^=;]+?)\s*=\s*([^;]+);', csrc)
+                if not mm:
+                    raise GenError('unit %s: constant %s not found in %s (lost anchor)' % (unit, cname, rel))
+                lines.append('pub const %s: %s = %s;' % (cname, mm.group(1).strip(), mm.group(2).strip()))
+                info['types'].append({'kind': 'const', 'name': cname, 'source': rel, 'sha256': hashlib.sha256(mm.group(0).encode()).hexdigest()[:16], 'derives_seen': []})
+            elif s.startswith('//@prooffn '):
+                # a proof function of /verif/spec that is an OBLIGATION on the extracted source (e.g. an independent
+                # constant table the source enum must agree with): wrapped in markers and registered like a function
+                m = re.match(r'//@prooffn\s+(\S+)\s+(\S+)\s+@\s+(\S+)\s*$', s)
+                key, specfile, srcpath = m.group(1), m.group(2), m.group(3)
+                text = open(os.path.join(VERIF, specfile)).read()
+                labels = re.findall(r'//\s*\[([^\]]+)\]', text)
+                info['functions'].append({'fn': key, 'source': srcpath, 'contract': specfile, 'verified_here': True,
+                                          'body_sha256': hashlib.sha256(text.encode()).hexdigest()[:16], 'rewrites': [], 'degraded': [],
+                                          'loops': 0, 'labels': labels, 'clauses': len(labels)})
+                lines.append('//@@BEGIN %s\n%s\n//@@END %s' % (key, text.rstrip('\n'), key))
             elif s.startswith('//@onlyonce '):
                 # a mechanical source fact an assumed contract relies on: the text occurs exactly once under the directory
                 m = re.match(r'//@onlyonce\s+`(.*)`\s+in\s+(\S+)\s*$', s)
